@@ -72,6 +72,12 @@ func (c *BlockFetcherClient[B]) FetchBlocks(ctx context.Context, blk Block, minT
 				close(resultChan)
 				return
 			}
+			// There is nothing below genesis: a chain younger than the validity window is
+			// complete once genesis has been fetched (asking for height 0-1 would loop forever).
+			if c.lastBlock.GetHeight() == 0 {
+				close(resultChan)
+				return
+			}
 
 			nodeID, ok := c.sampleNodeID(ctx)
 			if !ok {
@@ -106,6 +112,10 @@ func (c *BlockFetcherClient[B]) FetchBlocks(ctx context.Context, blk Block, minT
 				case resultChan <- block:
 					c.lastBlock = block
 					if c.lastBlock.GetTimestamp() < minTimestamp.Load() {
+						close(resultChan)
+						return
+					}
+					if c.lastBlock.GetHeight() == 0 {
 						close(resultChan)
 						return
 					}
